@@ -1457,7 +1457,7 @@ def framing_order(prog, rep):
     rh = u.func("callback_read_header")
     if rh is not None:
         for c in rh.calls("gotheaders"):
-            ln = norm(c.arg(2)) if c.arg(2) is not None else None
+            ln = rh.expand(norm(c.arg(2))) if c.arg(2) is not None else None
             mc = [m for m in rh.calls("memcmp") if any(a is not None and a.strip() is not None and a.strip().strv == b"\r\n\r\n" for a in m.args)]
             pos = None
             for m in mc:
